@@ -559,6 +559,20 @@ def mutators(rng):
     add("inplace:v_iadd", lambda m, r: m.vertices.__iadd__([0.5, 0.25, -1.0]))
     add("inplace:v_imul", lambda m, r: m.vertices.__imul__(1.5))
     add("inplace:v_slice", lambda m, r: m.vertices.__setitem__(slice(0, 2), m.vertices[:2] * 1.1 + 0.3))
+    # the remaining in-place operators and methods the tracked array overrides
+    _R = np.array([[0.0, -1.0, 0.0], [1.0, 0.0, 0.0], [0.0, 0.0, 1.0]])
+
+    def v_imatmul(m, r):
+        v = m.vertices
+        v @= _R.T  # rotate all vertices a quarter turn about z, in place
+
+    add("inplace:v_imatmul", v_imatmul)
+    add("inplace:v_isub", lambda m, r: m.vertices.__isub__([0.25, -0.5, 1.0]))
+    add("inplace:v_itruediv", lambda m, r: m.vertices.__itruediv__(2.0))
+    add("inplace:v_ipow", lambda m, r: m.vertices.__ipow__(3))
+    add("inplace:v_col_fill", lambda m, r: m.vertices.__setitem__((slice(None), 2), np.asarray(m.vertices)[:, 2] * 2.0 + 0.75))
+    add("inplace:v_put", lambda m, r: m.vertices.put([0, 4], [3.25, -2.5]))
+    add("inplace:f_sort_rows_cyclic", lambda m, r: m.faces.__setitem__(Ellipsis, np.roll(np.array(m.faces), 1, axis=1)))
     add("inplace:f_setitem", lambda m, r: m.faces.__setitem__(0, np.array(m.faces[0])[::-1].copy()))
     add("inplace:f_setitem_last", lambda m, r: m.faces.__setitem__(len(m.faces) - 1, np.array(m.faces[-1])[[1, 2, 0]].copy()))
     add("inplace:f_fliplr_all", lambda m, r: m.faces.__setitem__(Ellipsis, np.array(m.faces)[:, ::-1].copy()))
@@ -877,7 +891,7 @@ def _workload(run, mon):
     # was cached before the edit must not be re-validated by the second call
     silent_first = [n for n, _ in muts if n in (
         "inplace:v_setitem_late", "inplace:v_imul", "inplace:f_setitem_last", "inplace:f_fliplr_all",
-        "reassign:vertices", "reassign:faces_subset", "density_set")]
+        "inplace:v_imatmul", "inplace:v_put", "reassign:vertices", "reassign:faces_subset", "density_set")]
     keepers = [n for n, _ in muts if n.split(":")[0] in (
         "apply_translation", "invert", "process", "copy", "copy.copy", "fix_normals", "unmerge_vertices",
         "merge_vertices", "remove_unreferenced_vertices", "rezero", "apply_obb", "convert_units")
